@@ -958,10 +958,11 @@ class Parent:
 
     @property
     def layout_content(self):
-        if self.token is not None:
+        if self.token is not None and self.production is None:
             # Several tokens can be shifted to the same head (lexical
             # ambiguity). Each one is preceded by the layout that was
-            # skipped ahead of the head it was shifted from.
+            # skipped ahead of the head it was shifted from. (Reduction
+            # links get a `token` too when a dynamic filter is called.)
             return self.root.layout_content_ahead
         return self.head.layout_content
 
